@@ -159,6 +159,8 @@ def run(ctx: Ctx) -> None:
     for r in raw:
         ctx.count('inject:%s:%s' % (r['stage'], r['escaped']))
 
+    directed(ctx)
+
     # ---- (b) fuzzing ----
     N = ctx.n(160, 20000) * (3 if ctx.broken else 1)
     alphabet = ['def', 'class', 'if', 'else', 'elif', 'for', 'in', 'while', 'return', 'pass', 'lambda', 'not', 'and', 'or', 'import', 'from', 'a', 'b', 'self', 'int', 'str',
@@ -207,6 +209,59 @@ def run(ctx: Ctx) -> None:
                 os.remove(name.replace('.', '/') + '.py')
             except OSError:
                 pass
+
+
+# directed inputs: each ill-typed shape goes through the in-memory and the on-disk path on every run, and each pair
+# (failing input, then a valid one) through one session, the way the interactive loop re-submits __main__
+DIRECTED = [
+    ('untyped-parameter', 'class A:\n\tdef f(self, b) -> None: ...\n'),
+    ('unknown-type', 'def f() -> None:\n\ta: Foo = 1\n'),
+    ('undefined-name', 'def f(a: int) -> int:\n\treturn a + missing\n'),
+    ('missing-import', 'from c07_missing.mod import X\n\ndef f() -> None:\n\tpass\n'),
+    ('undefined-import-name', 'from typing import TypeVars\n'),
+    ('dict-arity', 'def f() -> None:\n\ta: dict[str] = {}\n'),
+    ('syntax', 'def f(a: int) -> int:\n\treturn (a +\n'),
+    ('dedent', 'if True:\n        a = 1\n    b = 2\n'),
+    ('docstring-only', "'''only a docstring'''\n"),
+    ('bad-call', 'def f(a: int) -> int:\n\treturn a.nope(1)\n'),
+    ('self-outside-class', 'def f(self) -> None:\n\tpass\n'),
+    ('return-outside-function', 'return 1\n'),
+]
+VALID = 'def ok(a: int) -> int:\n\treturn a + 1\n'
+
+
+def directed(ctx: Ctx) -> None:
+    import tsession
+    os.makedirs('c07dir', exist_ok=True)
+    open('c07dir/__init__.py', 'w').close()
+    for k, (tag, src) in enumerate(DIRECTED):
+        for where in ('memory', 'disk'):
+            name = 'c07dir.d%d' % k if where == 'disk' else 'dir_mod'
+            if where == 'disk':
+                with open('c07dir/d%d.py' % k, 'w') as f:
+                    f.write(src)
+            res = classify(lambda: tsession.Session({} if where == 'disk' else {name: src}).transpile(name))
+            ctx.case(('directed', tag, where), res[0] != 'ok')
+            ctx.count('directed:%s:%s:%s' % (tag, where, res[0]))
+            if res[0] in ('leak', 'timeout'):
+                ctx.violation('%s:%s@%s' % (res[0], res[1], res[2]), 'a non-application exception escapes the pipeline: %s raised in %s (%s input, %s)' % (res[1], res[2] or '?', tag, where),
+                              dict(input=dict(source=src, path=where), impl_result=list(res)))
+        # one session: the failing input, then a valid re-submission of the same module
+        sources = {'seq_mod': src}
+        sess = tsession.Session(sources)
+        first = classify(lambda: sess.transpile('seq_mod'))
+
+        def resubmit():
+            sources['seq_mod'] = VALID
+            sess.unload('seq_mod')
+            return sess.transpile('seq_mod')
+        second = classify(resubmit)
+        ctx.count('sequence:%s:%s-then-%s' % (tag, first[0], second[0]))
+        ctx.evaluations += 1
+        if second[0] != 'ok':
+            kind = second[0] if second[0] in ('leak', 'timeout') else 'valid-input-rejected-after-failure'
+            ctx.violation('%s:%s@%s' % (kind, second[1], second[2]), 'after a failing input (%s) the re-submitted valid module does not transpile in the same session: %s %s' % (tag, second[0], second[1]),
+                          dict(input=dict(source=src, then=VALID, path='memory-sequence'), impl_result=[list(first), list(second)]))
 
 
 def replay(ctx: Ctx, data: dict) -> int:
